@@ -677,7 +677,7 @@ def setitem(E, obj, idx, v):
     if isinstance(obj, VRef):
         h = E.heap[obj.addr]
         if isinstance(h, HDict):
-            E.trace.append(('dict_set', obj.addr, repr(idx)))
+            E.trace.append(('dict_set', obj.addr, repr(idx), idx, v))
             return dict_set(E, h, idx, v)
         if isinstance(h, HList):
             n = E.list_len(h)
